@@ -91,7 +91,7 @@ def layer_attrs(tier, lookalikes=False):
                     continue          # an empty name falls back to the id: not a text round trip
                 yield {"layer": "A", "spec": attr_doc(kind, attr, a),
                        "tags": {"element": kind, "attr": attr, "atoms": [repr(a)]}}
-    for d in ({"date": "2020-01-02"}, {"date": "1999-12-31"}):
+    for d in ({"date": "2020-01-02"}, {"date": "1999-12-31"}, {"date": "0999-12-31"}):
         yield {"layer": "A", "spec": attr_doc("document", "date", d),
                "tags": {"element": "document", "attr": "date", "atoms": [repr(d)]}}
     # a dependency_value need not be text: the value 0 of an int Property, False of a boolean one
@@ -99,6 +99,15 @@ def layer_attrs(tier, lookalikes=False):
         spec = attr_doc("property", "dependency_value", dv)
         spec["sections"][0]["properties"][0]["attrs"]["dependency"] = "other"
         yield {"layer": "A", "spec": spec, "tags": {"element": "property", "attr": "dependency_value", "atoms": [repr(dv)]}}
+    # the dtype given as a member of the DType enumeration instead of its name
+    for member, vals in (("int", [1, 2]), ("string", ["a"]), ("text", ["a\nb"]), ("float", [0.5]), ("boolean", [True]),
+                         ("date", [{"date": "2020-01-02"}]), ("url", ["https://example.org"])):
+        yield {"layer": "A", "spec": docs.simple_doc(P("p", vals, "DType." + member)),
+               "tags": {"element": "property", "attr": "dtype", "atoms": [repr("DType." + member)]}}
+    # a Document version need not be text: Document(version=42), Document(version=0.9), and the falsy 0
+    for v in (42, 0.9, 0, 0.0):
+        yield {"layer": "A", "spec": attr_doc("document", "version", v),
+               "tags": {"element": "document", "attr": "version", "atoms": [repr(v)]}}
     for u in UNCERTAINTIES:
         spec = attr_doc("property", "uncertainty", u)
         spec["sections"][0]["properties"][0].update({"values": [1.5], "dtype": "float"})
@@ -275,7 +284,8 @@ def normalise_trim(snap):
                 out[k] = v
             elif k == "uncertainty":
                 out[k] = _number(v)
-            elif k == "dependency_value":
+            elif k in ("dependency_value", "version"):
+                # XML holds the text of these attributes only: a version 42 is read back as '42'
                 out[k] = _as_text(v)
             else:
                 out[k] = _strip_atom(v, True)
@@ -299,6 +309,8 @@ def features(atom_reprs):
         except Exception:
             out.add("typed")
             continue
+        if isinstance(a, list) and any(isinstance(x, str) and ("," in x or '"' in x) for x in a):
+            out.add("tuple-element-with-comma-or-quote")
         if not isinstance(a, str):
             out.add(type(a).__name__)
             if isinstance(a, float) and float("%e" % a) != a:
